@@ -1,9 +1,10 @@
 import GnoVerif.Base.Kit
-import GnoVerif.Model.C32
+import GnoVerif.Spec.C32
 /-!
 Driver for C32 (block validation).  One (state, block) pair per line:
 
-  vb  S1 … S15  B1 … B19  COMMIT p1 … pN  | go-only tokens …
+  vb  S1 … S15  B1 … B19  COMMIT p1 … pN  | go-only tokens …     ValidateBasic + ValidateBlock
+  ap  (same tokens)                                               BlockExecutor.ApplyBlock
   und HEX                                  bytes that do not amino-decode into a Block
 
   S1 blockVersion S2 appVersion S3 chainID (hex strings)   S4 initialHeight S5 lastBlockHeight
@@ -17,7 +18,8 @@ Driver for C32 (block validation).  One (state, block) pair per line:
   COMMIT `nil` | `C<id>`     precommit `-` | `type:height:round:bid:ts:vidx:sigbit`
   Everything after the token `|` is for the Go side only (how to rebuild the real objects).
 
-Answer: `<Block.ValidateBasic>,<State.ValidateBlock>` each `ok` | `err:<class>` | `panic:<class>`;
+Answer (vb): `<Block.ValidateBasic>,<State.ValidateBlock>` each `ok` | `err:<class>` | `panic:<class>`;
+(ap): `err:<class>` (ValidateBlock's) or `ok h=… tot=… time=… lastvals=… lbid=1`, the block-derived fields of the new State;
 `err:undecodable` for `und`; `err:badop` for a line that does not parse.
 -/
 namespace GnoVerif.Drive.C32
@@ -95,10 +97,25 @@ def parseBlock (bs : List String) (commit : Option Commit) : Option Block :=
            lastCommit := commit, lastCommitHashC := ← hexToBytes b19 }
   | _ => none
 
+/-- a short digest of a validator list: count / Σ power / Σ (i+1)·addr mod 1000000007
+(the kit truncates output lines at 300 characters). -/
+def valsStr (vs : C36.ValSet) : String :=
+  let rec go : List C36.Validator → Nat → Nat → Nat
+    | [], _, acc => acc
+    | v :: rest, i, acc => go rest (i + 1) ((acc + i * (v.addr % 1000000007)) % 1000000007)
+  s!"{vs.length}/{C36.sumPowers vs}/{go vs 1 0}"
+
+/-- `ap`: the model's `applyBlock`; the block-derived fields of the new state. -/
+def applyStr (s : State) (b : Block) : String :=
+  match applyBlock s b 1 ⟨[], [], [], [], [], []⟩ with
+  | .error e => e.toString
+  | .ok s' => s!"ok h={s'.lastBlockHeight} tot={s'.lastBlockTotalTx} time={s'.lastBlockTime} lastvals={valsStr s'.lastValidators} lbid={if s'.lastBlockID = 1 then "1" else "0"}"
+
 def run (t : List String) : String :=
   match t with
   | ["und", _] => "err:undecodable"
-  | "vb" :: rest =>
+  | op :: rest =>
+    if op ≠ "vb" ∧ op ≠ "ap" then "err:badop" else
     let main := rest.takeWhile (· ≠ "|")
     if main.length < 35 then "err:badop" else
     match parseState (main.take 15), main.drop 34 with
@@ -108,6 +125,7 @@ def run (t : List String) : String :=
         match parseBlock ((main.drop 15).take 19) commit with
         | some b =>
           if !C36.validSet s.validators || !C36.validSet s.lastValidators then "err:badset"
+          else if op == "ap" then applyStr s b
           else Res.toString (validateBasic b) ++ "," ++ Res.toString (validateBlock s b)
         | none => "err:badop"
       | none => "err:badop"
